@@ -24,6 +24,11 @@ Files: `C01VariantSpreadA` (class, closed form, `variantspread_items_shape`), `C
   by `serde_json::to_value`; evaluated on the model in `variantspread_b_roundtrip`).  Missing: the writing side of a
   struct with borrowing flattened members (the reading side is `deStructMap_borrow` of part B) and the round trip of the
   fragment's own type(s) on an object that also carries its siblings' keys;
+  (Proved since: `variantspread_lossless` / `variantspread_roundtrip` of `C01VariantSpreadE`, for the whole class;
+  `variantspread_content` of `C01VariantSpreadH`: the closed form has the content of the response.)
+* later extensions of the class: several inline fragments on one possible type; a selection set that is a lone spread of a
+  fragment on the abstract type itself (`loneB`); `VariantSpreadOp2` (`C01VariantSpreadF` / `G`): inline fragments
+  `... on T { ...F }` next to other selections;
 * `variantSpreadOp_of_variantOp`: the classes are nested (`VariantOp ⊆ VariantSpreadOp`);
 * the key-disjointness conditions of `absOkS` are necessary: `variantspread_overlap_interface_loses_key`,
   `variantspread_overlap_variant_loses_key`, `variantspread_b_overlap_loses_key`: in each case the emitted types **reject a
